@@ -20,6 +20,14 @@ func (d *deduplicateSingleFetches) ProcessFetchTree(root *resolve.FetchTreeNode)
 	for i := range root.ChildNodes {
 		for j := i + 1; j < len(root.ChildNodes); j++ {
 			if root.ChildNodes[i].Item.EqualSingleFetch(root.ChildNodes[j].Item) {
+				// Equal fetches that wait for different producers are kept apart: the parent
+				// field comes from different subgraphs for different concrete types, and a
+				// merged fetch that only waits for one of them runs before the other has
+				// returned. (Merging their dependencies instead can close a cycle with
+				// dependencies that later stages add for nested paths.)
+				if !sameDependencies(root.ChildNodes[i].Item.Fetch.Dependencies().DependsOnFetchIDs, root.ChildNodes[j].Item.Fetch.Dependencies().DependsOnFetchIDs) {
+					continue
+				}
 				root.ChildNodes[i].Item.FetchPath = d.mergeFetchPath(root.ChildNodes[i].Item.FetchPath, root.ChildNodes[j].Item.FetchPath)
 
 				newId := root.ChildNodes[i].Item.Fetch.Dependencies().FetchID
@@ -34,6 +42,21 @@ func (d *deduplicateSingleFetches) ProcessFetchTree(root *resolve.FetchTreeNode)
 			}
 		}
 	}
+}
+
+// sameDependencies reports whether two dependency lists contain the same fetch IDs.
+func sameDependencies(a, b []int) bool {
+	for _, id := range a {
+		if !slices.Contains(b, id) {
+			return false
+		}
+	}
+	for _, id := range b {
+		if !slices.Contains(a, id) {
+			return false
+		}
+	}
+	return true
 }
 
 // replaceDependsOnFetchID replaces all occurrences of oldId with newId in the
